@@ -21,7 +21,7 @@ EnvOK == [parse |-> TRUE, sigValid |-> TRUE, ptype |-> "notary", pjson |-> TRUE]
 Envs  == {EnvOK, [EnvOK EXCEPT !.parse = FALSE, !.sigValid = FALSE], [EnvOK EXCEPT !.sigValid = FALSE],
           [EnvOK EXCEPT !.ptype = "other"], [EnvOK EXCEPT !.pjson = FALSE]}
 
-Descs(api) == {d \in [dgEq : BOOLEAN, szEq : BOOLEAN, mt : {"same", "other", "none"}, genErr : BOOLEAN] :
+Descs(api) == {d \in [dgEq : BOOLEAN, szEq : BOOLEAN, mt : {"same", "other", "none", "unsigned"}, genErr : BOOLEAN] :
                  d.genErr => (api = "VerifyBlob" /\ d.dgEq /\ d.szEq /\ d.mt = "same")}
 
 Benign == [anchor |-> "found", identity |-> "match", expired |-> FALSE, certTime |-> "valid", rev |-> "ok",
